@@ -50,7 +50,7 @@ theorem source_ends_session_after_refusal :
 /-- what the model has no clock or mutable `ip` field to exhibit is read off the source: the Keep-Alive timeout is put around the wait for a request and
 around nothing else (a request that comes in time is answered however old the session is and however long its handler takes), and the connection's
 address is written back into the reused request object before each request (what a fang wrote into the public field `ip` is not the next request's).
-Both are also exercised in real time by the correspondence run (scenario `timed` of the C05 executor, `OHKAMI_KEEPALIVE_TIMEOUT=1`). -/
+Both are also exercised in real time by the correspondence run (scenario `timed` of the C05 executor, `OHKAMI_KEEPALIVE_TIMEOUT=2`). -/
 theorem source_session_is_per_request : Ohkami.Gen.keepAliveBoundsTheWaitOnly = true ∧ Ohkami.Gen.ipRestored = true := by decide
 
 end C05
